@@ -8,4 +8,5 @@ CONSTANTS
   Mode <- M1
   Timed = {t2, t3}
   Kind = "rw"
+  PeekUnlock = FALSE
 INVARIANTS WriterExclusive StateMatchesHolders AdmittedAfterLastUnlock FailedIsNoOp
